@@ -57,6 +57,8 @@ class Ident:
     """numbers are ticks (generated nodes use small integers)"""
 
     def num(self, x):
+        if dc.abs_special(x):
+            return dc.abs_special(x)
         if isinstance(x, (int, float)) and not isinstance(x, bool) and abs(x) >= 10 ** 6:
             return {'k': 'num', 'n': 10 ** 6 if x > 0 else -10 ** 6}
         return dc.abs_number(x)
@@ -76,10 +78,12 @@ class Rank:
     """numbers are order ranks among all numbers of the trace (shipped configurations)"""
 
     def __init__(self, numbers):
-        self.rank = {x: i for i, x in enumerate(sorted(set(float(n) for n in numbers if n == n)))}
+        self.rank = {x: i for i, x in enumerate(sorted(set(float(n) for n in numbers if n == n and abs(n) != float('inf'))))}
 
     def num(self, x):
-        if isinstance(x, bool) or not isinstance(x, (int, float)) or x != x:
+        if dc.abs_special(x):
+            return dc.abs_special(x)
+        if isinstance(x, bool) or not isinstance(x, (int, float)):
             return dc.odd(x)
         return {'k': 'num', 'n': self.rank[float(x)]}
 
@@ -557,6 +561,10 @@ def candidates(info, cur):
             res.append(cur)
         if t == 'int':
             res = [int(x) for x in res if x == int(x)]
+        if lo is not None and hi is not None or t == 'int':      # (an unlimited double clamps +-inf: documented)
+            res += [float('nan'), float('inf'), float('-inf')]
+        else:
+            res.append(float('nan'))
         return (res or [1]) + ['x', None, [1]]
     if t == 'enum':
         vals = sorted(info['members'].values())
